@@ -160,6 +160,10 @@ type ClientsSpec struct {
 	Filters []string `json:"filters"` // filter of client i = Filters[i % len]
 	Msgs    int      `json:"msgs"`
 	Size    int      `json:"size"`
+	// Big > 0: client 0 also makes a two-character shortcut (emitter/link/) for the common channel and publishes
+	// a payload of Big bytes through it: the packet fits the message size coming in, but with the shortcut expanded to
+	// the channel name it does not fit going out. Nobody can be sent that message - and nobody may suffer for it.
+	Big int `json:"big,omitempty"`
 }
 
 // concurrentClients: every client subscribes its filter, then all publish to the same channels at once, ping and leave.
@@ -189,6 +193,18 @@ func (e *childEnv) concurrentClients(data []byte) string {
 				return
 			}
 			<-start
+			if sp.Big > 0 && i == 0 {
+				if _, err := c.Request(2, "link", map[string]interface{}{"name": "lk", "key": e.key, "channel": ns + "/x0/", "subscribe": false}); err != nil {
+					errs <- "link request: " + err.Error()
+					return
+				}
+				p := packets.NewControlPacket(packets.Publish).(*packets.PublishPacket)
+				p.TopicName, p.Payload = "lk", make([]byte, sp.Big)
+				if err := c.Send(p); err != nil {
+					errs <- "publish through the shortcut: " + err.Error()
+					return
+				}
+			}
 			for m := 0; m < sp.Msgs; m++ {
 				p := packets.NewControlPacket(packets.Publish).(*packets.PublishPacket)
 				p.TopicName, p.Payload = fmt.Sprintf("%s/%s/x%d/", e.key, ns, m%3), make([]byte, sp.Size)
